@@ -417,11 +417,28 @@ func (m *c17Model) envAt(ctx *fw.JQDef, steps []c17Step, env c17Env, target any)
 	return env
 }
 
+// c17SingleKeyObj returns key and value of an object literal {key: value} with one constant key.
+func c17SingleKeyObj(q *gojq.Query) (string, *gojq.Query) {
+	q = c17Unparen(q)
+	if q == nil || q.Left != nil || q.Term == nil || q.Term.Type != gojq.TermTypeObject || q.Term.Object == nil || len(q.Term.SuffixList) > 0 || len(q.Term.Object.KeyVals) != 1 {
+		return "", nil
+	}
+	kv := q.Term.Object.KeyVals[0]
+	k := kv.Key
+	if k == "" && kv.KeyString != nil && len(kv.KeyString.Queries) == 0 {
+		k = kv.KeyString.Str
+	}
+	if k == "" || strings.HasPrefix(k, "$") || kv.Val == nil {
+		return "", nil
+	}
+	return k, kv.Val
+}
+
 // ---------------------------------------------------------------------------
 // C17.inputs
 
 func c17Inputs(m *c17Model) {
-	ru := m.r.Rule("C17.inputs", "input/_input: break on empty list, pop head before opening, open and decode each in their own try whose handler records into the class specific memory keyed by the file name, prints, and continues with the next input; the continuation's results are not fed through later steps again; inputs = _repeat_break(input)", 28)
+	ru := m.r.Rule("C17.inputs", "input/_input: break on empty list, pop head before opening, open and decode each in their own try whose handler records into the class specific memory keyed by the file name, prints, and continues with the next input; the continuation's results bypass f (tagged and selected, or nothing follows) and f is applied to the opened value only; inputs = _repeat_break(input)", 30)
 	in := m.def(ru, "input", 0)
 	if in == nil {
 		return
@@ -457,8 +474,27 @@ func c17Inputs(m *c17Model) {
 		t := c17IsTry(steps[i].Q)
 		if c17HasCall(t.Body, "open", 0) && iOpen < 0 {
 			iOpen = i
-		} else if c17HasCall(t.Body, pF, 0) && iDec < 0 {
-			iDec = i
+		}
+	}
+	// the decode try may sit in a later stage (an arm that receives only the opened value)
+	var openT, decT *gojq.Try
+	if iOpen >= 0 {
+		openT = c17IsTry(steps[iOpen].Q)
+	}
+	allTries := c17Tries(d.Def.Body)
+	for _, t := range allTries {
+		if t == openT || (openT != nil && c17ContainsNode(&gojq.Query{Term: &gojq.Term{Type: gojq.TermTypeTry, Try: openT}}, t)) {
+			continue
+		}
+		if c17HasCall(t.Body, pF, 0) && decT == nil {
+			decT = t
+		}
+	}
+	if decT != nil {
+		for i, st := range steps {
+			if c17ContainsNode(st.Q, decT) {
+				iDec = i
+			}
 		}
 	}
 	if iRead != 0 || iSplit < 0 || iOpen < 0 || iDec < 0 {
@@ -521,11 +557,20 @@ func c17Inputs(m *c17Model) {
 
 	// I5 separate tries in the right order
 	ru.Check(iOpen < iDec, "_input:order", pos, "open try precedes decode try", "the decode step comes before the open step")
-	openT, decT := c17IsTry(steps[iOpen].Q), c17IsTry(steps[iDec].Q)
 	ru.Check(!c17HasCall(openT.Body, pF, 0) && !c17HasCall(decT.Body, "open", 0), "_input:separate-tries", pos, "open and "+pF+" are protected by separate tries",
 		"open and "+pF+" share a try: an open failure and a decode failure can no longer be told apart (2 vs 4)")
 	ob := c17Steps(openT.Body)
-	ru.Check(len(ob) > 0 && fw.JQIsCall(ob[0].Q, "open", 0) != nil && c17IsIdentity(ob[len(ob)-1].Q), "_input:open-body", pos, "open | ... | .",
+	openKey := ""
+	openBodyOK := false
+	if len(ob) > 0 && fw.JQIsCall(ob[0].Q, "open", 0) != nil {
+		lastQ := ob[len(ob)-1].Q
+		if c17IsIdentity(lastQ) {
+			openBodyOK = true
+		} else if k, v := c17SingleKeyObj(lastQ); k != "" && c17IsIdentity(v) {
+			openBodyOK, openKey = true, k
+		}
+	}
+	ru.Check(openBodyOK, "_input:open-body", pos, "open | ... | the opened value (possibly tagged)",
 		"open try body does not start with open and end with the opened value: "+c17S(openT.Body))
 	setName := false
 	for _, c := range c17Calls(openT.Body, "_input_filename", 1, false) {
@@ -535,10 +580,10 @@ func c17Inputs(m *c17Model) {
 	}
 	ru.Check(setName, "_input:filename", pos, "_input_filename("+name+") after a successful open", "input_filename is not set to the name of the opened input")
 	ru.Check(fw.JQIsCall(decT.Body, pF, 0) != nil, "_input:decode-body", pos, "try "+pF, "decode try body is not exactly "+pF+": "+c17S(decT.Body))
-	ru.Check(len(tries) == 2, "_input:try-count", pos, "two protected steps", fmt.Sprintf("%d try steps in _input, expected open and decode", len(tries)))
+	ru.Check(len(allTries) == 2, "_input:try-count", pos, "two protected steps", fmt.Sprintf("%d try terms in _input, expected open and decode", len(allTries)))
 
 	// I6/I7 handlers
-	handler := func(tag string, t *gojq.Try, own, other string) {
+	handler := func(tag string, t *gojq.Try, own, other string) (contKey string, hasCont bool) {
 		if t.Catch == nil {
 			ru.Fail("_input:"+tag+":catch", pos, "try without catch: the failure is swallowed, nothing is recorded and input yields nothing")
 			return
@@ -587,6 +632,15 @@ func c17Inputs(m *c17Model) {
 		// last step: print , continue
 		last := c17Commas(hs[len(hs)-1].Q)
 		cont := fw.JQIsCall(last[len(last)-1], d.Def.Name, 2)
+		if cont == nil {
+			// the continuation may be tagged: {key: _input(...)}
+			if k, v := c17SingleKeyObj(last[len(last)-1]); k != "" {
+				if c := fw.JQIsCall(v, d.Def.Name, 2); c != nil {
+					cont, contKey = c, k
+				}
+			}
+		}
+		hasCont = cont != nil
 		contOK := cont != nil && fw.JQIsCall(cont.Args[0], pOpts, 0) != nil && fw.JQIsCall(cont.Args[1], pF, 0) != nil
 		ru.Check(contOK, "_input:"+tag+":continue", pos, "handler ends with "+d.Def.Name+"("+pOpts+"; "+pF+")",
 			"handler does not end by continuing with the next input ("+d.Def.Name+"("+pOpts+"; "+pF+")): "+c17S(hs[len(hs)-1].Q))
@@ -605,39 +659,127 @@ func c17Inputs(m *c17Model) {
 			"handler does not print the error with the input name to stderr before continuing")
 		ru.Check(!c17HasCall(t.Catch, "error", 0) && !c17HasCall(t.Catch, "error", 1) && !c17HasCall(t.Catch, "halt_error", 1) && !c17HasCall(t.Catch, "_fatal_error", 1),
 			"_input:"+tag+":no-abort", pos, "handler neither re-raises nor halts", "handler re-raises or halts: one failing input prevents the processing of the others")
+		return
 	}
-	handler("open", openT, "_input_io_errors", "_input_decode_errors")
-	handler("decode", decT, "_input_decode_errors", "_input_io_errors")
+	openContKey, openHasCont := handler("open", openT, "_input_io_errors", "_input_decode_errors")
+	decContKey, decHasCont := handler("decode", decT, "_input_decode_errors", "_input_io_errors")
 
-	// I9 results of the continuation are complete: they must not pass through later steps again
-	for _, i := range tries {
-		t := c17IsTry(steps[i].Q)
-		if t.Catch == nil || !c17HasCall(t.Catch, d.Def.Name, 2) {
-			continue
+	// I9 results of a continuation are complete (opened and passed through f): they must leave
+	// _input without passing through f again, and f must be applied to the opened value only
+	short := func(q *gojq.Query) string {
+		txt := c17S(q)
+		if len(txt) > 40 {
+			txt = txt[:40] + "..."
 		}
-		tag := "open"
-		if i == iDec {
-			tag = "decode"
+		return txt
+	}
+	var after []c17Step // value-transforming steps behind the open try
+	for j := iOpen + 1; j < len(steps); j++ {
+		if steps[j].Bind == nil && !c17IsIdentity(steps[j].Q) {
+			after = append(after, steps[j])
 		}
+	}
+	refeed := func(why string) {
 		var again []string
-		for j := i + 1; j < len(steps); j++ {
-			if steps[j].Bind != nil {
-				continue // a binding does not transform the value
-			}
-			if !c17IsIdentity(steps[j].Q) {
-				txt := c17S(steps[j].Q)
-				if len(txt) > 40 {
-					txt = txt[:40] + "..."
-				}
-				again = append(again, txt)
-			}
+		for _, a := range after {
+			again = append(again, short(a.Q))
 		}
-		if len(again) == 0 {
-			ru.Ok("_input:"+tag+":no-refeed", pos, "continuation results leave _input directly")
+		ru.Fail("_input:open:no-refeed", pos, "the open failure handler emits the results of "+d.Def.Name+"(...) — already opened and passed through "+pF+" — into the rest of the pipeline, so "+
+			"the next good input goes through `"+strings.Join(again, " | ")+"` a second time (decoded twice; the second decode is of a decode value, not of the file)"+why)
+	}
+	switch {
+	case !openHasCont:
+		// reported by _input:open:continue
+	case openContKey == "" && openKey == "":
+		// untagged: nothing may follow the open try... but the decode step has to, so this shape re-feeds
+		if len(after) == 0 {
+			ru.Ok("_input:open:no-refeed", pos, "continuation results leave _input directly")
 		} else {
-			ru.Fail("_input:"+tag+":no-refeed", pos, "the "+tag+" failure handler emits the results of "+d.Def.Name+"(...) — already opened and passed through "+pF+" — into the rest of the pipeline, so "+
-				"the next good input goes through `"+strings.Join(again, " | ")+"` a second time (decoded twice; the second decode is of a decode value, not of the file)")
+			refeed("")
 		}
+	case openContKey == "" || openKey == "" || openContKey == openKey:
+		ru.Fail("_input:open:no-refeed", pos, fmt.Sprintf("the opened value is tagged %q and the continuation %q: the next stage cannot tell them apart", openKey, openContKey))
+	default:
+		// tagged: exactly one following stage, an if on the tag, whose continuation arm is `.tag` alone
+		// and whose opened arm is `.tag | try f catch ...`
+		var sel *gojq.If
+		if len(after) == 1 {
+			sel = c17IsIf(after[0].Q)
+		}
+		if sel == nil || len(sel.Elif) > 0 || sel.Else == nil {
+			ru.Undecided("_input:open:no-refeed", pos, "tagged open results are not consumed by a single if/else stage")
+			break
+		}
+		var contArm, openArm *gojq.Query
+		switch c17S(sel.Cond) {
+		case "has(\"" + openContKey + "\")":
+			contArm, openArm = sel.Then, sel.Else
+		case "has(\"" + openKey + "\")":
+			contArm, openArm = sel.Else, sel.Then
+		case "has(\"" + openContKey + "\") | not":
+			contArm, openArm = sel.Else, sel.Then
+		}
+		if contArm == nil {
+			ru.Undecided("_input:open:no-refeed", pos, "stage after the open try does not select on the tag: "+short(sel.Cond))
+			break
+		}
+		cs := c17Steps(contArm)
+		if len(cs) == 1 && cs[0].Bind == nil && c17S(cs[0].Q) == "."+openContKey {
+			ru.Ok("_input:open:no-refeed", pos, "continuation results are passed on as they are (."+openContKey+")")
+		} else {
+			after = []c17Step{{Q: contArm}}
+			refeed(" [arm of the tag " + openContKey + "]")
+		}
+		os := c17Steps(openArm)
+		okArm := len(os) >= 2 && os[0].Bind == nil && c17S(os[0].Q) == "."+openKey && c17IsTry(os[len(os)-1].Q) == decT
+		for _, x := range os[1:max(1, len(os)-1)] {
+			if x.Bind == nil && !c17IsIdentity(x.Q) {
+				okArm = false
+			}
+		}
+		ru.Check(okArm, "_input:decode-operand", pos, pF+" is applied to the opened value (."+openKey+") only", "the arm for an opened input is not `."+openKey+" | try "+pF+" catch ...`: "+short(openArm))
+	}
+	// decode continuation: the decode try must be the final stage
+	if decHasCont {
+		lastTop := -1
+		for j := range steps {
+			if steps[j].Bind == nil && !c17IsIdentity(steps[j].Q) {
+				lastTop = j
+			}
+		}
+		final := lastTop == iDec && decContKey == ""
+		if final {
+			// inside its stage the try must be in tail position of every pipeline on the way down
+			q := steps[iDec].Q
+			for final {
+				st := c17Steps(q)
+				lastSt := st[len(st)-1]
+				if c17IsTry(lastSt.Q) == decT {
+					break
+				}
+				if !c17ContainsNode(lastSt.Q, decT) {
+					final = false
+					break
+				}
+				i := c17IsIf(lastSt.Q)
+				if i == nil {
+					final = false
+					break
+				}
+				var next *gojq.Query
+				for _, a := range c17Arms(i) {
+					if a.Then != nil && c17ContainsNode(a.Then, decT) {
+						next = a.Then
+					}
+				}
+				if next == nil {
+					final = false
+					break
+				}
+				q = next
+			}
+		}
+		ru.Check(final, "_input:decode:no-refeed", pos, "continuation results leave _input directly", "the decode failure handler's continuation results pass through further steps of _input")
 	}
 
 	// I10 dispatch in input
